@@ -20,7 +20,7 @@ func init() {
 	fw.Register(&fw.Property{
 		ID:    "C14",
 		Level: "exploration",
-		Rule: "cases = batches of (name, type, write list) tuples on 3 peers with different identities. Names: ASCII, unicode (NFC/NFD pairs, RTL, emoji), spaces, nested a/b/c, empty, '.', '..', 'a/../b', 'a//b', trailing slash, leading slash, 200 characters, CID-looking, '/orbitdb/...'-looking, percent and control characters, plus PRNG compositions of these pieces; x 3 registered types x write lists {none (creator default), [a], [a,b], [b,a], [a,b,c], wildcard}. Per tuple: the address computed by every peer; per batch: a collision map over all tuples; on a sample: Create, Open on another peer, second Create with/without Overwrite (also with a non-default CreateDBOptions.Directory), LocalOnly open of an unknown database, DetermineAddress/Create from ONE parameters value reused for up to 8 databases with its write list changed in between, and Open on a fresh peer while the k-th block it needs (k=1..3: database manifest, controller manifest, write list) does not arrive before the deadline. " +
+		Rule: "cases = batches of (name, type, write list) tuples on 3 peers with different identities. Names: ASCII, unicode (NFC/NFD pairs, RTL, emoji), spaces, nested a/b/c, empty, '.', '..', 'a/../b', 'a//b', trailing slash, leading slash, 200 characters, CID-looking, '/orbitdb/...'-looking (also with valid CIDs, with and without the leading slash, and the printed addresses of databases of the same batch used as NAMES), percent and control characters, plus PRNG compositions of these pieces; x 3 registered types x write lists {none (creator default), [a], [a,b], [b,a], [a,b,c], wildcard}. Per tuple: the address computed by every peer; per batch: a collision map over all tuples; on a sample: Create, Open on another peer, second Create with/without Overwrite (also with a non-default CreateDBOptions.Directory), LocalOnly open of an unknown database, DetermineAddress/Create from ONE parameters value reused for up to 8 databases with its write list changed in between, and Open on a fresh peer while the k-th block it needs (k=1..3: database manifest, controller manifest, write list) does not arrive before the deadline. " +
 			"distinct = tuple (name, type, list); non-trivial = the name was accepted by Create/DetermineAddress on every peer (refused names must be refused identically on every peer and are counted separately)",
 		Assumptions: []string{"the write list as given (order included) is part of the inputs", "blocks of the creating peer are fetchable by the opening peer"},
 		Cases:       c14Cases,
@@ -36,7 +36,8 @@ var c14Names = []string{
 	"db", "DB", "db1", "my database", " leading", "trailing ", "a/b/c", "a/b", "a", "b", "", ".", "..", "...", "a/../b", "a/./b", "a//b", "a/", "/a", "//", "a/b/", "../a",
 	"é", "é", "Ω", "Ω", "Ω", "ключ", "数据库", "قاعدة", "😀", "a​b", "a\tb", "a\nb", "a%2Fb", "a%20b", "a?b", "a#b", "a\\b", "a:b",
 	"bafyreiaqcgb4rd2doanu7r5e2nhmvu2jkm3wqrjhnt7uzig6pjhbx6lzhu", "zdpuAuSAkDDRm9KTciShAcph2epSZsNmfPeLQmxw6b5mdLmq5", "QmYwAPJzv5CZsnA625s3Xf2nemtYgPpHdWEz79ojWnPbdG",
-	"orbitdb", "orbitdb/x", "/orbitdb/x", "ipfs/x", strings.Repeat("n", 200), strings.Repeat("ab/", 40) + "z",
+	"orbitdb", "orbitdb/x", "/orbitdb/x", "ipfs/x",
+	"orbitdb/bafyreiaqcgb4rd2doanu7r5e2nhmvu2jkm3wqrjhnt7uzig6pjhbx6lzhu/db", "/orbitdb/bafyreiaqcgb4rd2doanu7r5e2nhmvu2jkm3wqrjhnt7uzig6pjhbx6lzhu/db", "x/orbitdb/zdpuAuSAkDDRm9KTciShAcph2epSZsNmfPeLQmxw6b5mdLmq5/a/b", "orbitdb/zdpuAuSAkDDRm9KTciShAcph2epSZsNmfPeLQmxw6b5mdLmq5", strings.Repeat("n", 200), strings.Repeat("ab/", 40) + "z",
 }
 
 func c14Cases(tier string, seed int64) []fw.Case {
@@ -134,7 +135,9 @@ func c14Run(c fw.Case) fw.Verdict {
 		addr string
 	}
 	var acceptedTuples []created
-	for _, t := range tuples {
+	derived := 0
+	for ti := 0; ti < len(tuples); ti++ {
+		t := tuples[ti]
 		if done[t] {
 			continue
 		}
@@ -203,6 +206,15 @@ func c14Run(c fw.Case) fw.Verdict {
 			samples = append(samples, key+" -> "+a)
 		}
 		acceptedTuples = append(acceptedTuples, created{t, a})
+		// databases NAMED after the address of another database (as printed, without its leading slash, and
+		// with something in front): the address of a database is self-describing, a name is opaque
+		if derived < 4 && !strings.Contains(t.name, "orbitdb") && len(t.name) < 40 {
+			derived++
+			for _, nm := range []string{strings.TrimPrefix(a, "/"), a, "x" + a} {
+				tuples = append(tuples, c14Tuple{nm, storeTypes[(ti+derived)%3], t.list})
+				v.Count("names_derived_from_an_address", 1)
+			}
+		}
 	}
 	// open / create / overwrite / local-only on a sample
 	rng.Shuffle(len(acceptedTuples), func(i, j int) { acceptedTuples[i], acceptedTuples[j] = acceptedTuples[j], acceptedTuples[i] })
